@@ -1,25 +1,37 @@
 #!/usr/bin/env python3
 """Run every quick check on scratch variants built from behaviour-preserving patches; print any report that is not a
-known finding.  usage: benign_run.py <patch.diff> ..."""
+known finding.  usage: benign_run.py <patch.diff> ...   (BENIGN_JOBS parallel scratch copies, one fact extraction per copy and configuration)"""
 import sys, json, os, shutil
+from concurrent.futures import ThreadPoolExecutor
 V = os.path.dirname(os.path.dirname(os.path.abspath(__file__)))
 sys.path.insert(0, V)
 from analyzer import selftest
 PROPS = [c['property_id'] for c in json.load(open(os.path.join(V, 'MANIFEST.json')))['checks']]
 known = {k['key'] for k in json.load(open(os.path.join(V, 'known_findings.json')))['findings'] if k['status'] == 'known'}
-for path in sys.argv[1:]:
+
+
+def one(path):
     rel = os.path.relpath(os.path.abspath(path), V)
     tmp, dst = selftest.make_scratch(rel)
     if tmp is None:
-        print('==', rel, 'PATCH DOES NOT APPLY'); continue
+        return rel, None
     ev = os.path.join(tmp, 'ev'); os.makedirs(os.path.join(ev, 'violations'))
     out = []
-    for p in PROPS:
-        rc, reports, o = selftest.run_child(p, dst, ev)
-        for r in reports:
-            if r.get('key') not in known:
-                out.append('%s %s [%s] %s' % (r['rule'], r['instance'], r['kind'], str(r.get('observed'))[:160]))
-    shutil.rmtree(tmp, ignore_errors=True)
-    print('==', rel, 'ALARMS:' if out else 'silent', flush=True)
-    for x in out:
-        print('     ', x, flush=True)
+    try:
+        for p in PROPS:
+            rc, reports, o = selftest.run_child(p, dst, ev, cache=os.path.join(tmp, 'facts'))
+            for r in reports:
+                if r.get('key') not in known:
+                    out.append('%s %s [%s] %s' % (r['rule'], r['instance'], r['kind'], str(r.get('observed'))[:160]))
+    finally:
+        shutil.rmtree(tmp, ignore_errors=True)
+    return rel, out
+
+
+with ThreadPoolExecutor(max_workers=int(os.environ.get('BENIGN_JOBS', '6'))) as ex:
+    for rel, out in ex.map(one, sys.argv[1:]):
+        if out is None:
+            print('==', rel, 'PATCH DOES NOT APPLY', flush=True); continue
+        print('==', rel, 'ALARMS:' if out else 'silent', flush=True)
+        for x in out:
+            print('     ', x, flush=True)
